@@ -24,6 +24,7 @@ LLA = ("lat", "lon", "alt")
 WGS_A = 6378137.0
 WGS_E2 = 6.6943799901413e-3
 BASE = {"lat": 50.0, "lon": 30.0}
+UNIT = 1e-3      # lat/lon signal values are offsets in milli-degrees (about 111 m): tables differ by up to ~0.05 deg
 
 
 def radii(lat, alt):
@@ -42,7 +43,7 @@ def wrap_in(h):
 
 def to_real(col, v):
     if col in BASE:
-        return BASE[col] + v * 1e-6
+        return BASE[col] + v * UNIT
     if col == "heading":
         return wrap_in(v)
     return float(v)
@@ -68,16 +69,16 @@ def expected_value(c, cols, row, has_lla, has_rph):
     f, g, dk = row[j]
     if c in LLA and has_lla:
         jl, ja = cols.index("lat"), cols.index("alt")
-        lat_m = 0.5 * ((BASE["lat"] + row[jl][0] / K * 1e-6) + (BASE["lat"] + row[jl][1] / K * 1e-6))
+        lat_m = 0.5 * ((BASE["lat"] + row[jl][0] / K * UNIT) + (BASE["lat"] + row[jl][1] / K * UNIT))
         alt_m = 0.5 * (row[ja][0] / K + row[ja][1] / K)
         rn, rp = radii(lat_m, alt_m)
         if c == "lat":
-            return math.radians(dk / K * 1e-6) * rn, "metres"
+            return math.radians(dk / K * UNIT) * rn, "metres"
         if c == "lon":
-            return math.radians(dk / K * 1e-6) * rp, "metres"
+            return math.radians(dk / K * UNIT) * rp, "metres"
         return -dk / K, "plain"
     if c in BASE:
-        return dk / K * 1e-6, "deg"
+        return dk / K * UNIT, "deg"
     if c in RPH and has_rph:
         return dk / K, "angle"
     if c == "heading":
@@ -188,7 +189,7 @@ def replay_pair(m, line):
                         exp = resampled[t][j] / K
                         ok = angle_close(got, exp)
                     elif c in BASE:
-                        exp = BASE[c] + resampled[t][j] / K * 1e-6
+                        exp = BASE[c] + resampled[t][j] / K * UNIT
                         ok = (got == exp) if t in aidx else abs(got - exp) <= 1e-12
                     else:
                         exp = resampled[t][j] / K
@@ -214,10 +215,10 @@ def replay_pair(m, line):
                     if float(S["down"]) != -(float(va) - float(vb)):
                         out.append(("violation", "Series difference down = %r, expected %r" % (float(S["down"]), -(va - vb))))
                 elif c in BASE:
-                    lat_m = BASE["lat"] + 0.5e-6 * (avals[i][acols.index("lat")] + bvals[j][acols.index("lat")])
+                    lat_m = BASE["lat"] + 0.5 * UNIT * (avals[i][acols.index("lat")] + bvals[j][acols.index("lat")])
                     alt_m = 0.5 * (avals[i][acols.index("alt")] + bvals[j][acols.index("alt")])
                     rn, rp = radii(lat_m, alt_m)
-                    exp = math.radians((va - vb) * 1e-6) * (rn if c == "lat" else rp)
+                    exp = math.radians((va - vb) * UNIT) * (rn if c == "lat" else rp)
                     got = float(S["north" if c == "lat" else "east"])
                     if abs(got - exp) > 1e-6 * abs(exp) + 1e-6:
                         out.append(("violation", "Series difference %s = %r m, expected %r m" % (c, got, exp)))
